@@ -32,7 +32,11 @@ try:
             rc, out = sh('python3 /verif/tools/baseline.py %s' % wt)
             res['baseline'] = out.strip().splitlines()[0] if out.strip() else ''
             res['baseline_ok'] = (rc == 0)
+        ev = '/verif/evidence/%s.json' % pid
+        ev_saved = open(ev).read() if os.path.exists(ev) else None
         rc, out = sh('cd /verif && PCBV_REPO=%s ./check %s --tier %s' % (wt, pid, tier))
+        if ev_saved is not None:
+            open(ev, 'w').write(ev_saved)   # evidence must come from runs against /repo itself
         res['check_exit'] = rc
         res['check_lines'] = [l for l in out.splitlines() if l.startswith(('VIOLATION', 'KNOWN-FINDING'))][:6]
         res['check_tail'] = out.strip().splitlines()[-1] if out.strip() else ''
